@@ -179,6 +179,17 @@ def gen_derived_case(rnd):
 def gen_subq_case(rnd):
     doc = gen_doc(rnd)
     k = rnd.random()
+    if k < 0.12:
+        # star projections of the scoped row (`FROM dual` inside a sub-query), directly and one FROM level below
+        dual = select([["star"]], table("dual"))
+        inner = rnd.choice([
+            dual,
+            select([["star"]], ["derived", dual, "z"]),
+            ["union", [], dual, dual, False, [], None, None, {}],
+            select([["star"]], table("w"), ctes=[["w", dual]]),
+        ])
+        q = select([item(col("n0")), item(["subq", inner], "sub")], table("t"))
+        return mk_case(doc, q, mode="seq", tag="subq-dual")
     if k < 0.3:
         sub = select([item(col("x"))], table("items"), wh=rnd.choice([TRUE, ["cmp", "gt", col("x"), num(1)]]))
         q = select([item(col("n0")), item(["subq", sub], "sub")], table("t"))
